@@ -65,7 +65,19 @@ No interpretation happens here except:
     path written in the callee's name (".attrs[]", "[].attrs[]"): the specification of the store - given in the
     template - returns the new state of x.  `for t in x` over such an object becomes `for t in iter(x)` ("iter"
     by specification: the keys as of the start of the loop); the loop body may store through x - the
-    specification of the store must leave the keys alone (stated in the template)."""
+    specification of the store must leave the keys alone (stated in the template).
+  * (phase 4b) a signature `def f(a, *args, k=v)`: the parameters are a, args, k in this order; a caller binds
+    `args` to the TUPLE of the extra positional arguments (Python's own rule) and the keyword-only parameters
+    by value; `vararg_<f>` names the starred parameter.  `**kwargs` stays outside.
+  * (phase 4b) numpy functions used as VALUES (`npmin, npmax = np.nanmin, np.nanmax`; FUNC_VALUES) become the
+    constant "<fn:np.nanmin>", and a call `x(args)` whose callee x is a local variable of the function becomes
+    ECallV (PyLite looks the function up in x; no keywords / stars).
+  * (phase 4b) a dict comprehension `{k: v for ..}` becomes `dict([(k, v) for ..])` (PyLite's dicts: string keys,
+    insertion order); `d[k] = v` on a dict is SSetItem, admitted - like every mutation - only for a provably
+    fresh un-escaped dict (Fresh kind "dict": bound to a dict comprehension), or for a fresh data frame (kind
+    "frame": bound to the result of `.aggregate(..)`, which pandas always returns as a new object); what
+    `x[k]` / `x[k] = v` do on a non-dict object is the specification getitem:<class> / setitem:<class> of the
+    template."""
 import ast
 import os
 from fractions import Fraction
@@ -177,6 +189,8 @@ CLASS_NAMES = ("UserWarning", "FutureWarning", "DeprecationWarning", "RuntimeWar
 TYPE_NAMES = ("bool", "int", "float")
 DTYPE_CONSTS = ("np.float32", "np.float64", "np.int32", "np.int64")    # module attributes admitted as opaque constants
 FUNC_NAMES = ("sum", "len", "abs", "min", "max")
+# module functions admitted as VALUES (bound to a local name and called through it: PyLite's ECallV)
+FUNC_VALUES = ("np.nanmin", "np.nanmax", "np.min", "np.max")
 
 
 class Translator:
@@ -188,6 +202,7 @@ class Translator:
         self.catches = []               # the classes of the except clauses, in source order
         self.is_generator = False
         self.iterated = set()           # ids of the expressions that are only iterated (for / comprehension / tuple(..))
+        self.fn_locals = set()          # local names that only ever hold function values (see function_value_locals)
 
     def dotted(self, node):
         """a.b.c rooted at an imported module -> 'a.b.c', else None"""
@@ -282,6 +297,11 @@ class Translator:
             # zip(..) is an iterator; PyLite renders it as a list, which is the same only when it is consumed
             # by iteration: as the iterable of a for / comprehension or the argument of tuple(..) / list(..)
             raise Unsupported("zip(..) used other than as the iterable of a for / comprehension / tuple() / list()")
+        if isinstance(f, ast.Name) and f.id in self.locals and f.id in self.fn_locals:
+            # x(args), x a local variable that holds a function value (see FUNC_VALUES)
+            if e.keywords:
+                raise Unsupported("keywords in a call through the local variable " + f.id)
+            return "(ECallV %s %s)" % (cstr(f.id), lst(args))
         if isinstance(f, ast.Name):
             if f.id == "isinstance":
                 # isinstance(x, str|tuple|list): the class is part of the callee's name
@@ -336,6 +356,10 @@ class Translator:
         expr = self.expr
         if isinstance(e, ast.ListComp):
             return self.comp("CList", e.generators, e.elt)
+        if isinstance(e, ast.DictComp):
+            # {k: v for ..} = dict([(k, v) for ..]): key before value, as Python evaluates them
+            pair = ast.Tuple(elts=[e.key, e.value], ctx=ast.Load())
+            return "(ECall %s %s)" % (cstr("dict"), lst([self.comp("CList", e.generators, pair)]))
         if isinstance(e, ast.Name):
             if e.id in self.modules:
                 raise Unsupported("module %s used as a value" % e.id)
@@ -394,6 +418,8 @@ class Translator:
         if isinstance(e, ast.Attribute):
             if self.dotted(e) in MODULE_CONSTS:
                 return "(EConst (VS %s))" % cstr(MODULE_CONSTS[self.dotted(e)])
+            if self.dotted(e) in FUNC_VALUES:
+                return "(EConst (VS %s))" % cstr("<fn:%s>" % self.dotted(e))
             if self.dotted(e) in DTYPE_CONSTS:
                 return "(EConst (VS %s))" % cstr("<%s>" % self.dotted(e))
             if self.dotted(e) is not None:
@@ -809,9 +835,10 @@ def all_target_names(t):
 # in a `return`.  Any other occurrence (y = x, f(x), (x, y), x.m() ...) makes x non-fresh.  Branches
 # are joined by intersection, loop bodies are iterated to a fixed point, and a loop body may not mutate
 # a name that occurs in the loop's iterable.
+FRESH_METHOD_RESULTS = {"aggregate"}     # methods that always return a new object (pandas' aggregate)
 FRESH_LIST_CALLS = {"list"}
 FRESH_ARRAY_CALLS = {"np.array", "np.unique"}      # always return a new array
-FRESH_ARRAY_CALLS_KW = {"np.zeros", "np.empty"}     # fresh also when called with keywords (dtype=)
+FRESH_ARRAY_CALLS_KW = {"np.zeros", "np.empty", "np.ones_like"}     # fresh also when called with keywords (dtype=)
 # imported functions that build and return a NEW container that nobody else holds (kind "object"):
 # verde.utils.make_xarray_grid returns `xr.Dataset(data_vars, coords, attrs=...)`, created in the call
 FRESH_OBJECT_CALLS = {"make_xarray_grid"}
@@ -824,6 +851,11 @@ class Fresh:
     def kind(self, e):
         if isinstance(e, (ast.List, ast.ListComp)):
             return "list"
+        if isinstance(e, ast.DictComp):
+            return "dict"
+        if (isinstance(e, ast.Call) and isinstance(e.func, ast.Attribute) and e.func.attr in FRESH_METHOD_RESULTS
+                and self.tr.dotted(e.func) is None):
+            return "frame"       # x.groupby(..).aggregate(..): pandas returns a new DataFrame
         if (isinstance(e, ast.Call) and isinstance(e.func, ast.Name) and e.func.id in self.tr.modules
                 and e.func.id[:1].isupper() and not any(isinstance(a, ast.Starred) for a in e.args)):
             return "object"      # Cls(...), Cls an imported class: a new object that nobody else holds
@@ -949,7 +981,7 @@ class Fresh:
                         raise Unsupported("assignment into a compound object")
                     x = t.value.id
                     self.drop(state, esc)
-                    self.need(state, x, ("list", "array"), frozen, "item assignment")
+                    self.need(state, x, ("list", "array", "dict", "frame"), frozen, "item assignment")
                 else:
                     self.drop(state, esc)
                     names = target_names(t)
@@ -1076,6 +1108,38 @@ def class_constants(cls):
     return out
 
 
+def function_value_locals(tr, fn):
+    """the local names of fn whose every binding is a function value of FUNC_VALUES (x = np.min or
+    x, y = np.min, np.max); parameters and names bound in any other way are excluded"""
+    good, bad = set(), set()
+    params = {x.arg for x in fn.args.args + fn.args.kwonlyargs} | ({fn.args.vararg.arg} if fn.args.vararg else set())
+    for n in ast.walk(fn):
+        if isinstance(n, ast.Assign) and len(n.targets) == 1:
+            t, v = n.targets[0], n.value
+            if isinstance(t, ast.Name):
+                pairs = [(t, v)]
+            elif (isinstance(t, (ast.Tuple, ast.List)) and isinstance(v, (ast.Tuple, ast.List))
+                  and len(t.elts) == len(v.elts) and all(isinstance(x, ast.Name) for x in t.elts)):
+                pairs = list(zip(t.elts, v.elts))
+            else:
+                pairs = []
+            for tt, vv in pairs:
+                (good if tr.dotted(vv) in FUNC_VALUES else bad).add(tt.id)
+    stored = {x.id for x in ast.walk(fn) if isinstance(x, ast.Name) and isinstance(x.ctx, ast.Store)}
+    # every Store of a good name must be one of the assignments above
+    count_assign = {}
+    for n in ast.walk(fn):
+        if isinstance(n, ast.Assign) and len(n.targets) == 1:
+            for x in ast.walk(n.targets[0]):
+                if isinstance(x, ast.Name):
+                    count_assign[x.id] = count_assign.get(x.id, 0) + 1
+    count_store = {}
+    for x in ast.walk(fn):
+        if isinstance(x, ast.Name) and isinstance(x.ctx, ast.Store):
+            count_store[x.id] = count_store.get(x.id, 0) + 1
+    return {g for g in good - bad - params if count_store.get(g) == count_assign.get(g) and g in stored}
+
+
 def imported_names(tree):
     names = set()
     for n in tree.body:
@@ -1104,11 +1168,16 @@ def translate(path, names):
     for qual, n, cls in defs_:
         if qual in names:
             a = n.args
-            if a.vararg or a.kwonlyargs or a.posonlyargs:
+            if a.posonlyargs:
                 raise Unsupported("signature of " + n.name)
             if n.decorator_list:
                 raise Unsupported("decorated function " + n.name)
             params = [x.arg for x in a.args]
+            if a.vararg or a.kwonlyargs:
+                # def f(a, *args, k=v): parameters a, args (the tuple of the extra positional arguments), k
+                params = params + ([a.vararg.arg] if a.vararg else []) + [x.arg for x in a.kwonlyargs]
+            # local names that are only ever bound to function values (FUNC_VALUES), by plain or tuple assignment
+            tr.fn_locals = function_value_locals(tr, n)
             tr.kwarg = None
             if a.kwarg:
                 # **kwargs: one more, opaque, parameter - the last one (see the module docstring)
@@ -1166,11 +1235,15 @@ def translate(path, names):
                 found[qual] += "Definition catches_%s : list string := %s.\n" % (ident, lst([cstr(c) for c in tr.catches]))
             # default values of the trailing parameters (constants only; a function with any other
             # default gets no defaults_ definition, so a proof that needs it fails closed)
+            if a.vararg:
+                found[qual] += "Definition vararg_%s : string := %s.\n" % (ident, cstr(a.vararg.arg))
             try:
-                named = [x.arg for x in a.args]
-                dnames = named[len(named) - len(a.defaults):] if a.defaults else []
+                npos = len(a.args)
+                dnames = [x.arg for x in a.args][npos - len(a.defaults):] if a.defaults else []
+                kwd = [(x.arg, d) for x, d in zip(a.kwonlyargs, a.kw_defaults) if d is not None]
+                dnames = dnames + [k for k, _ in kwd]
                 dvals = []
-                for d in a.defaults:
+                for d in list(a.defaults) + [d for _, d in kwd]:
                     if not isinstance(d, ast.Constant):
                         raise Unsupported("non-constant default")
                     dvals.append(tr.expr(d))
